@@ -296,6 +296,11 @@ func parseStrace(file, chrootHost, base, cwd string) ([]straceHit, straceStats, 
 			if linkDir == "" {
 				linkDir = "/"
 			}
+			if c == base {
+				// a link "at" the base directory itself cannot be created (the directory exists); its
+				// target would be read relative to the base's parent, which says nothing about an escape
+				linkDir = base
+			}
 			if !(c == base || strings.HasPrefix(c, base+"/")) {
 				h := straceHit{Mark: cur, Syscall: name, Path: c, Line: line}
 				for _, pre := range []string{"/sys/", "/proc/", "/dev/", "/etc/"} {
